@@ -1,10 +1,11 @@
 #!/bin/bash
+V=${VERIF_DIR:-$(cd "$(dirname "$(readlink -f "$0")")/.." && pwd)}
 # usage: mutant.sh <patch.diff> <ID> [tier]   -- run one check against a scratch copy of /repo with the patch applied
 P=$(readlink -f "$1"); ID=$2; TIER=${3:-quick}
 D=$(mktemp -d /tmp/mut-XXXXXX)
 rsync -a --exclude .git --exclude '*.diff' --exclude 'demo*.py' --exclude 'meta*.json' /repo/ "$D/"
 if ! (cd "$D" && patch -p1 -s --no-backup-if-mismatch < "$P"); then echo "PATCH FAILED $P"; rm -rf "$D"; exit 3; fi
-VERIF_REPO="$D" VERIF_OUT="$D/.vfout" /verif/check "$ID" "$TIER" 2>&1 | grep -v '^WARNING conda' | cut -c1-400 | tail -${LINES_OUT:-6}
+VERIF_REPO="$D" VERIF_OUT="$D/.vfout" $V/check "$ID" "$TIER" 2>&1 | grep -v '^WARNING conda' | cut -c1-400 | tail -${LINES_OUT:-6}
 rc=${PIPESTATUS[0]}
 rm -rf "$D"
 exit $rc
